@@ -196,7 +196,7 @@ def check(prop, tier, seed):
                          "boundaries/extremes of wider ones, derived enums against default-method twins; trait census over the closed "
                          "type universe per feature configuration; one evaluation = one probe of the real crate compared with the "
                          "model over the REGENERATED tables and checked by the monitor; distinct = distinct transcript lines" % ", ".join(which))
-        if fam == "derive":
+        if fam == "derive" or prop == "C17":
             import fam_derive
             res = fam_derive.transcripts(tier, seed, fam_derive.SETS[prop])
             m, c, st = fam_derive.findings(res, prop)
